@@ -107,13 +107,16 @@ def _load_expression(expression: dict) -> expressions.Expr:
     # in `a.b.c`, `c` links to `b` which links to `a`.
     # In `(a or b).c` however, `c` does not link to `(a or b)`,
     # as `(a or b)` is not a name and wouldn't allow to resolve `c`.
+    # In `"text".join`, `join` links to `"str"`, as when the expression was built.
     if cls is expressions.ExprAttribute:
-        previous = None
+        previous: expressions.ExprName | str | None = None
         for value in expr.values:
             if previous is not None:
                 value.parent = previous
             if isinstance(value, expressions.ExprName):
                 previous = value
+            elif isinstance(value, str):
+                previous = "str"
     return expr
 
 
